@@ -315,7 +315,75 @@ func c16Concurrent(env *fw.Env, idx int) fw.Result {
 	return res
 }
 
+// c16ReusedPacker: the output for a tree must not depend on what the same
+// Packer value packed before (options incl. a relative AllowSymlinkTarget,
+// which is defined relative to each call's own source directory).
+func c16ReusedPacker(env *fw.Env, idx int) fw.Result {
+	r := env.Rand(idx)
+	res := fw.Result{Hash: fw.HashString(fmt.Sprint("reuse", idx, env.Seed)), NonTrivial: true, Class: "reused-packer"}
+	if err := freshDir("/v"); err != nil {
+		return fw.Result{Verdict: fw.Inconclusive, Msg: err.Error()}
+	}
+	opts := packOpts{Ignore: r.Chance(1, 2), Deref: r.Chance(1, 2), Allow: []string{"../shared"}}
+	if r.Chance(1, 3) {
+		opts.Allow = []string{"../shared/x.txt", "../../shared"}
+	}
+	roots := []string{"/v/one/src", "/v/two/deeper/src", "/v/three/src"}
+	var descs []string
+	for i, root := range roots {
+		t, rules := c16Tree(r)
+		t.Nodes = append(t.Nodes, gen.NodeSpec{Path: fmt.Sprintf("to-shared-%d", i), Kind: "link", Target: "../shared/x.txt"})
+		t.Nodes = append(t.Nodes, gen.NodeSpec{Path: "sub/to-shared-dir", Kind: "link", Target: "../../shared"})
+		if err := c16Materialise(root, t, rules); err != nil {
+			res.Class, res.NonTrivial = "tree-not-materialisable", false
+			return res
+		}
+		mustWrite(filepath.Join(filepath.Dir(root), "shared", "x.txt"), fmt.Sprintf("shared of %d", i), 0644)
+		descs = append(descs, fmt.Sprintf("%s: %d nodes, rules %q", root, len(t.Nodes), rules))
+	}
+	res.Case = map[string]interface{}{"opts": opts.String(), "roots": descs}
+	shared, err := slug.NewPacker(opts.options()...)
+	if err != nil {
+		return fw.Result{Verdict: fw.Inconclusive, Msg: err.Error()}
+	}
+	order := r.Perm(len(roots))
+	for step, k := range order {
+		root := roots[k]
+		var o packObs
+		var buf bytes.Buffer
+		panicked, pv := fw.Try(func() { o.Meta, o.Err = shared.Pack(root, &buf) })
+		if panicked {
+			res.Verdict, res.Finding, res.Msg = fw.Violated, "panic:reused-packer", pv
+			return res
+		}
+		o.Data = buf.Bytes()
+		if o.Err == nil {
+			o.Entries, o.DecErr = mon.DecodeSlug(o.Data)
+		}
+		fresh := doPack(root, opts)
+		res.Evals++
+		if (fresh.Err == nil) != (o.Err == nil) {
+			res.Verdict, res.Finding = fw.Violated, "differs:reused-packer"
+			res.Msg = fmt.Sprintf("step %d: Pack(%s) with a Packer that packed %d other tree(s) before: err=%v; with a fresh Packer and the same options: err=%v", step, root, step, o.Err, fresh.Err)
+			return res
+		}
+		if fresh.Err == nil {
+			if d := sigDiff(slugSig(fresh.Entries), slugSig(o.Entries)); d != "" {
+				res.Verdict, res.Finding = fw.Violated, "differs:reused-packer"
+				res.Msg = fmt.Sprintf("step %d: Pack(%s) with a reused Packer differs from a fresh Packer with the same options: %s", step, root, d)
+				return res
+			}
+		}
+	}
+	return res
+}
+
 func init() {
+	reused := &fw.Phase{
+		Name: "one-packer-reused-on-several-roots", Chroot: true,
+		N:   fw.Fixed(150, 3000),
+		Run: c16ReusedPacker,
+	}
 	variations := &fw.Phase{
 		Name: "spelling-cwd-symlink-history-variations", Chroot: true,
 		N:   fw.Fixed(300, 4000),
@@ -332,8 +400,8 @@ func init() {
 		ID:    "C16",
 		Level: "exploration",
 		Rule: "for each generated tree (with one of 7 rule files) and option set, Pack runs once by the absolute clean path (baseline) and then under 18 variations: 8 spellings/working directories (trailing slash, doubled slash, dot segments, relative from parent / inside / elsewhere / sibling), 5 ways through a symlink (absolute target, relative target with the working directory elsewhere and at the link, chain of two, trailing slash) and 5 call histories (another tree, a rule file beginning with a negation, the same relative spelling / '.' used earlier from another working directory for a different tree whose rule file has the same size and mtime, 50 mixed calls); decoded entry lists must be identical. " +
-			"Concurrency: fresh race-instrumented worker per round, 8-16 goroutines packing different trees (default rules / negation-first rule files mixed) 3 times each behind a barrier (every other round through one shared Packer value), outputs compared with solo runs; any race report is a violation. non-trivial = every case (each has >=1 non-baseline variation); distinct = tree x rules x options",
+			"Reuse: one Packer value (options incl. relative AllowSymlinkTarget entries) packs three different roots in PRNG order and every output must equal that of a fresh Packer with the same options. Concurrency: fresh race-instrumented worker per round, 8-16 goroutines packing different trees (default rules / negation-first rule files mixed) 3 times each behind a barrier (every other round through one shared Packer value), outputs compared with solo runs; any race report is a violation. non-trivial = every case (each has >=1 non-baseline variation); distinct = tree x rules x options",
 		Assumptions: []string{"the baseline run is Pack of the absolute clean path in the same process", "the race detector only sees the interleavings the scheduler produced in these rounds"},
-		Phases:      []*fw.Phase{variations, conc},
+		Phases:      []*fw.Phase{variations, reused, conc},
 	})
 }
